@@ -81,6 +81,10 @@ Definition bound_preds (b : bound) (g : generics) (bound_trait : toks)
   end.
 
 Definition core_path (segs : list string) : toks := rpath_toks (RCore segs).
+(** `*const ::core::primitive::u8`: the type of the byte view of the union impls
+    (partial_eq_union.rs, hash_union.rs, debug_union.rs) *)
+Definition const_u8_ty : toks :=
+  [P "*"; I "const"; P "::"; I "core"; P "::"; I "primitive"; P "::"; I "u8"].
 Definition inline_attr : toks := [P "#"; G Bracket [I "inline"]].
 
 Fixpoint index_from {A} (i : nat) (l : list A) : list (nat * A) :=
